@@ -13,6 +13,7 @@ from . import k3
 TAL = 'http://xml.zope.org/namespaces/tal'
 METAL = 'http://xml.zope.org/namespaces/metal'
 I18N = 'http://xml.zope.org/namespaces/i18n'
+META = 'http://xml.zope.org/namespaces/meta'
 
 # (id, namespace key, attribute name, value, element content)
 STATEMENTS = [
@@ -31,14 +32,16 @@ STATEMENTS = [
     ('define-macro', 'metal', 'define-macro', 'm', 'x'),
     ('use-macro', 'metal', 'use-macro', 'e1', 'x'),
     ('define-slot', 'metal', 'define-slot', 's', 'x'),
+    # the meta namespace has one statement; it is part of the language like the others
+    ('interpolation', 'meta', 'interpolation', 'false', '${e1}'),
     # statement values are attribute values: character references in them are decoded the same way
     # in every spelling
     ('condition+entity', 'tal', 'condition', 'e1 &lt; 3', 'x'),
     ('content+entity', 'tal', 'content', 'structure string:&lt;b&gt;&amp;', 'x'),
     ('define+entity', 'tal', 'define', "a 'x&#59;y'", 'x'),
 ]
-URI = {'tal': TAL, 'metal': METAL, 'i18n': I18N}
-LEAK = re.compile(r'(\btal:|\bmetal:|\bi18n:|\bmeta:|xml\.zope\.org/namespaces|data-tal-|data-metal-|data-i18n-'
+URI = {'tal': TAL, 'metal': METAL, 'i18n': I18N, 'meta': META}
+LEAK = re.compile(r'(\btal:|\bmetal:|\bi18n:|\bmeta:|xml\.zope\.org/namespaces|data-tal-|data-metal-|data-i18n-|data-meta-'
                   r'|\bqq:|xmlns:qq|\bTq:|xmlns:Tq)')
 
 
